@@ -258,4 +258,10 @@ func init() {
 		"	out = in\n", "	out = Request{Command: in.Command, Span: in.Span, Stamp: in.Stamp, SeqNum: in.SeqNum}\n", "C07.R7.copy")
 	mut("C08", "a streamer request is not renegotiated while the codec is still on its first state", "core/pkg/transport/http/framer/codec.go",
 		"	if len(v.Payload.Keys) == 0 {\n		return nil\n	}\n	return c.Update(ctx, v.Payload.Keys)\n}\n\nfunc (c *Codec) decodeIteratorRequest(", "	if len(v.Payload.Keys) == 0 {\n		return nil\n	}\n	if c.LowerPerfCodec == nil {\n		return nil\n	}\n	return c.Update(ctx, v.Payload.Keys)\n}\n\nfunc (c *Codec) decodeIteratorRequest(", "C08.R8.update")
+	mut("C07", "the iterator synchronizer emits once a majority of leaseholders answered", "core/pkg/distribution/framer/iterator/synchronizer.go",
+		"	fulfilled := s.cycle.counter == s.nodeCount\n", "	fulfilled := s.cycle.counter > s.nodeCount/2\n", "C07.R2.sync")
+	mut("C07", "the writer synchronizer restarts its count only for commits", "core/pkg/distribution/framer/writer/synchronizer.go",
+		"	if fulfilled {\n		s.cycle.counter = 0\n	}", "	if fulfilled && res.Command == CommandCommit {\n		s.cycle.counter = 0\n	}", "C07.R2.sync")
+	mut("C15", "a repeated name is refused only when existing channels are not skipped", "core/pkg/distribution/channel/lease_proxy.go",
+		"		if namesSeen.Contains(name) {", "		if namesSeen.Contains(name) && !skipExisting {", "C15.R5.names")
 }
